@@ -342,6 +342,13 @@ def plant_all(decls, ns, rng):
                     if foreign and js:
                         j = js[0]; s = body[j]
                         out.append(('undefined-var-declared-in-neighbour', 'P0015', mut(i, (k, d[1], vs, body[:j] + [('a', s[1], s[2] + [foreign[0]])] + body[j + 1:]))))
+            # a call of a function block instance that only a neighbouring POU declares
+            if k != 'U':
+                for di in (i - 1, i + 1):
+                    if 0 <= di < len(decls) and decls[di][0] in 'FP':
+                        finst = [v['name'] for v in decls[di][2] if isinstance(v['ty'], tuple) and v['ty'][1] in fbnames and v['name'] not in own]
+                        if finst:
+                            out.append(('call-instance-declared-in-neighbour', 'P0021', mut(i, (k, d[1], vs, body + [('c', finst[0], [], [], [])]))))
             # per statement faults
             for j, s in enumerate(body):
                 if s[0] == 'a':
